@@ -1113,6 +1113,437 @@ example :
        .fetchOk { peers := 2 }, .request]
     s.dropped = [1, 2, 0, 3] ∧ s.producerGone = true ∧ s.slot = none ∧ places s 0 = 1 ∧ places s 3 = 1 := by decide
 
+/-! #### freshness: a request is answered by a fetch that STARTED after the request was made -/
+
+private structure TimeInv (t : Timed) : Prop where
+  flowInv : FlowInv t.flow
+  past : ∀ p ∈ t.issued, p.2 < t.clock
+  all : ∀ id, id < t.flow.next → ∃ ti, (id, ti) ∈ t.issued
+  ids : ∀ p ∈ t.issued, p.1 < t.flow.next
+  pend : ∀ r, t.flow.pending = some r → ∀ ti, (r, ti) ∈ t.issued → ti < t.fetchStart
+  servedAfter : ∀ p ∈ t.served, ∀ ti, (p.1, ti) ∈ t.issued → ti < p.2
+  servedIds : ∀ p ∈ t.served, p.1 < t.flow.next
+  answeredServed : ∀ id, (id ∈ t.flow.answeredOk ∨ id ∈ t.flow.applying ∨ id ∈ refreshIds t.flow.slot ∨
+      id ∈ t.flow.answeredErr) → ∃ tF, (id, tF) ∈ t.served
+
+private theorem timeInv_init : TimeInv tinit :=
+  ⟨flowInv_init, by simp [tinit], by simp [tinit], by simp [tinit], by simp [tinit],
+   by simp [tinit], by simp [tinit], by simp [tinit, refreshIds]⟩
+
+private theorem pending_lt_next (f : Flow) (fi : FlowInv f) (r : Nat) (hr : f.pending = some r) : r < f.next := by
+  have := fi.once r
+  simp only [places, hr, Option.toList_some, List.count_cons_self] at this
+  split at this
+  · assumption
+  · omega
+
+private theorem waiting_lt_next (f : Flow) (fi : FlowInv f) (r : Nat) (hr : r ∈ f.waiting) : r < f.next := by
+  have := fi.once r
+  have hc : 0 < f.waiting.count r := List.count_pos_iff.mpr hr
+  simp only [places] at this
+  split at this
+  · assumption
+  · omega
+
+/-- Sufficient conditions for one non-`request` transition to keep the time invariant. -/
+private theorem timeInv_of (t t' : Timed) (h : TimeInv t) (fi' : FlowInv t'.flow)
+    (hnext : t'.flow.next = t.flow.next) (hissued : t'.issued = t.issued) (hclock : t.clock ≤ t'.clock)
+    (hpend : ∀ r, t'.flow.pending = some r →
+      (t.flow.pending = some r ∧ t'.fetchStart = t.fetchStart) ∨ (r < t.flow.next ∧ t'.fetchStart = t.clock))
+    (hserved : ∀ p ∈ t'.served, p ∈ t.served ∨ (t.flow.pending = some p.1 ∧ p.2 = t.fetchStart))
+    (hans : ∀ id, (id ∈ t'.flow.answeredOk ∨ id ∈ t'.flow.applying ∨ id ∈ refreshIds t'.flow.slot ∨
+        id ∈ t'.flow.answeredErr) →
+      (id ∈ t.flow.answeredOk ∨ id ∈ t.flow.applying ∨ id ∈ refreshIds t.flow.slot ∨ id ∈ t.flow.answeredErr) ∨
+      (∃ tF, (id, tF) ∈ t'.served))
+    (hmono : ∀ p ∈ t.served, p ∈ t'.served) : TimeInv t' := by
+  obtain ⟨fi, past, all, ids, pend, servedAfter, servedIds, answeredServed⟩ := h
+  refine ⟨fi', ?_, ?_, ?_, ?_, ?_, ?_, ?_⟩
+  · intro p hp; rw [hissued] at hp; have := past p hp; omega
+  · intro id hid; rw [hnext] at hid; rw [hissued]; exact all id hid
+  · intro p hp; rw [hissued] at hp; rw [hnext]; exact ids p hp
+  · intro r hr ti hti
+    rw [hissued] at hti
+    rcases hpend r hr with ⟨h1, h2⟩ | ⟨_, h2⟩
+    · rw [h2]; exact pend r h1 ti hti
+    · rw [h2]; exact past _ hti
+  · intro p hp ti hti
+    rw [hissued] at hti
+    rcases hserved p hp with h1 | ⟨h1, h2⟩
+    · exact servedAfter p h1 ti hti
+    · rw [h2]; exact pend p.1 h1 ti hti
+  · intro p hp
+    rw [hnext]
+    rcases hserved p hp with h1 | ⟨h1, _⟩
+    · exact servedIds p h1
+    · exact pending_lt_next t.flow fi p.1 h1
+  · intro id hid
+    rcases hans id hid with h1 | h1
+    · obtain ⟨tF, htF⟩ := answeredServed id h1
+      exact ⟨tF, hmono _ htF⟩
+    · exact h1
+
+private theorem stopProducer_fields (f : Flow) :
+    (stopProducer f).next = f.next ∧ (stopProducer f).pending = none ∧ (stopProducer f).answeredOk = f.answeredOk ∧
+    (stopProducer f).answeredErr = f.answeredErr ∧ (stopProducer f).applying = f.applying ∧
+    (∀ id, id ∈ refreshIds (stopProducer f).slot → id ∈ refreshIds f.slot) := by
+  unfold stopProducer
+  simp only []
+  split <;> simp [refreshIds_none]
+
+private theorem timeInv_step (t : Timed) (e : Ev) (h : TimeInv t) : TimeInv (tstep t e) := by
+  have h0 := h
+  obtain ⟨fi, past, all, ids, pend, servedAfter, servedIds, answeredServed⟩ := h
+  have fi' : FlowInv (RefreshFlow.step t.flow e) := flowInv_step _ e fi
+  cases e with
+  | request =>
+    have hn : (RefreshFlow.step t.flow .request).next = t.flow.next + 1 := by
+      simp only [RefreshFlow.step]; split <;> rfl
+    have hsame : (RefreshFlow.step t.flow .request).pending = t.flow.pending ∧
+        (RefreshFlow.step t.flow .request).answeredOk = t.flow.answeredOk ∧
+        (RefreshFlow.step t.flow .request).applying = t.flow.applying ∧
+        (RefreshFlow.step t.flow .request).slot = t.flow.slot ∧
+        (RefreshFlow.step t.flow .request).answeredErr = t.flow.answeredErr := by
+      simp only [RefreshFlow.step]; split <;> simp
+    obtain ⟨hp, ha, hap, hs, he⟩ := hsame
+    refine ⟨fi', ?_, ?_, ?_, ?_, ?_, ?_, ?_⟩
+    · intro p hp'
+      simp only [tstep, List.mem_append, List.mem_singleton] at hp'
+      rcases hp' with hp' | rfl
+      · have := past p hp'; simp only [tstep]; omega
+      · simp [tstep]
+    · intro id hid
+      simp only [tstep, hn] at hid ⊢
+      by_cases hlt : id < t.flow.next
+      · obtain ⟨ti, hti⟩ := all id hlt
+        exact ⟨ti, List.mem_append_left _ hti⟩
+      · have : id = t.flow.next := by omega
+        exact ⟨t.clock, by simp [this]⟩
+    · intro p hp'
+      simp only [tstep, List.mem_append, List.mem_singleton] at hp'
+      simp only [tstep, hn]
+      rcases hp' with hp' | rfl
+      · have := ids p hp'; omega
+      · simp
+    · intro r hr ti hti
+      simp only [tstep, hp] at hr
+      simp only [tstep, List.mem_append, List.mem_singleton, Prod.mk.injEq] at hti ⊢
+      rcases hti with hti | ⟨hrn, _⟩
+      · exact pend r hr ti hti
+      · have := pending_lt_next t.flow fi r hr; omega
+    · intro p hp' ti hti
+      simp only [tstep] at hp'
+      simp only [tstep, List.mem_append, List.mem_singleton, Prod.mk.injEq] at hti
+      rcases hti with hti | ⟨hrn, _⟩
+      · exact servedAfter p hp' ti hti
+      · have := servedIds p hp'; omega
+    · intro p hp'
+      simp only [tstep] at hp'
+      simp only [tstep, hn]
+      have := servedIds p hp'; omega
+    · intro id hid
+      simp only [tstep, ha, hap, hs, he] at hid ⊢
+      exact answeredServed id hid
+  | recvRequest =>
+    by_cases hen : (!t.flow.producerGone && !t.flow.fetching && !t.flow.waiting.isEmpty) = true
+    · simp only [Bool.and_eq_true, Bool.not_eq_true'] at hen
+      obtain ⟨⟨hpg, hf⟩, hw⟩ := hen
+      match hwl : t.flow.waiting with
+      | [] => simp [hwl] at hw
+      | r :: rest =>
+        have hr : r < t.flow.next := waiting_lt_next t.flow fi r (by simp [hwl])
+        apply timeInv_of t _ h0
+        · simpa [tstep, hpg, hf, hwl] using fi'
+        · simp [tstep, RefreshFlow.step, hpg, hf, hwl]
+        · simp [tstep, hpg, hf, hwl]
+        · simp [tstep, hpg, hf, hwl]
+        · intro r' hr'
+          simp [tstep, RefreshFlow.step, hpg, hf, hwl] at hr' ⊢
+          right; omega
+        · intro p hp; left; simpa [tstep, hpg, hf, hwl] using hp
+        · intro id hid; left; simpa [tstep, RefreshFlow.step, hpg, hf, hwl] using hid
+        · intro p hp; simpa [tstep, hpg, hf, hwl] using hp
+    · have hst : RefreshFlow.step t.flow .recvRequest = t.flow := by
+        simp only [RefreshFlow.step]
+        split
+        · rfl
+        · rename_i hc
+          cases hwl : t.flow.waiting with
+          | nil => rfl
+          | cons r rest => simp [hwl] at hen hc; simp [hc] at hen
+      have : tstep t .recvRequest = t := by
+        simp only [tstep, hen, hst]; rfl
+      rw [this]; exact h0
+  | periodicFetch =>
+    by_cases hen : (!t.flow.producerGone && !t.flow.fetching) = true
+    · simp only [Bool.and_eq_true, Bool.not_eq_true'] at hen
+      obtain ⟨hpg, hf⟩ := hen
+      have hpn : t.flow.pending = none := fi.nofetch hf
+      apply timeInv_of t _ h0
+      · simpa [tstep, hpg, hf] using fi'
+      · simp [tstep, RefreshFlow.step, hpg, hf]
+      · simp [tstep, hpg, hf]
+      · simp [tstep, hpg, hf]
+      · intro r' hr'; simp [tstep, RefreshFlow.step, hpg, hf, hpn] at hr'
+      · intro p hp; left; simpa [tstep, hpg, hf] using hp
+      · intro id hid; left; simpa [tstep, RefreshFlow.step, hpg, hf] using hid
+      · intro p hp; simpa [tstep, hpg, hf] using hp
+    · have hst : RefreshFlow.step t.flow .periodicFetch = t.flow := by
+        simp only [RefreshFlow.step]
+        split
+        · rfl
+        · rename_i hc; simp at hc hen; simp [hc] at hen
+      have : tstep t .periodicFetch = t := by simp only [tstep, hen, hst]; rfl
+      rw [this]; exact h0
+  | fetchOk m =>
+    by_cases hen : (!t.flow.producerGone && t.flow.fetching) = true
+    · simp only [Bool.and_eq_true, Bool.not_eq_true'] at hen
+      obtain ⟨hpg, hf⟩ := hen
+      cases hcg : t.flow.consumerGone with
+      | false =>
+        apply timeInv_of t _ h0
+        · simpa [tstep, hpg, hf, hcg] using fi'
+        · simp [tstep, RefreshFlow.step, hpg, hf, hcg]
+        · simp [tstep, hpg, hf, hcg]
+        · simp [tstep, hpg, hf, hcg]
+        · intro r' hr'; simp [tstep, RefreshFlow.step, hpg, hf, hcg] at hr'
+        · intro p hp
+          simp only [tstep, hpg, hf, hcg, Bool.not_false, Bool.and_self, if_true, List.mem_append, List.mem_map,
+            Option.mem_toList] at hp
+          rcases hp with hp | ⟨r, hr, rfl⟩
+          · exact Or.inl hp
+          · exact Or.inr ⟨hr, rfl⟩
+        · intro id hid
+          simp only [tstep, RefreshFlow.step, hpg, hf, hcg, Bool.not_false, Bool.and_self, if_true,
+            Bool.false_or, Bool.not_true, Bool.false_eq_true, if_false, refreshIds_mergeMetadata, List.mem_append,
+            Option.mem_toList] at hid ⊢
+          rcases hid with h1 | h1 | (h1 | h1) | h1
+          · exact Or.inl (Or.inl h1)
+          · exact Or.inl (Or.inr (Or.inl h1))
+          · exact Or.inl (Or.inr (Or.inr (Or.inl h1)))
+          · exact Or.inr ⟨t.fetchStart, Or.inr (List.mem_map.mpr ⟨id, by simpa using h1, rfl⟩)⟩
+          · exact Or.inl (Or.inr (Or.inr (Or.inr h1)))
+        · intro p hp; simp [tstep, hpg, hf, hcg]; exact Or.inl hp
+      | true =>
+        obtain ⟨s1, s2, s3, s4, s5, s6⟩ := stopProducer_fields t.flow
+        apply timeInv_of t _ h0
+        · simpa [tstep, hpg, hf, hcg] using fi'
+        · simp [tstep, RefreshFlow.step, hpg, hf, hcg, s1]
+        · simp [tstep, hpg, hf, hcg]
+        · simp [tstep, hpg, hf, hcg]
+        · intro r' hr'; simp [tstep, RefreshFlow.step, hpg, hf, hcg, s2] at hr'
+        · intro p hp; left; simpa [tstep, hpg, hf, hcg] using hp
+        · intro id hid; left
+          have hfl : (tstep t (.fetchOk m)).flow = stopProducer t.flow := by
+            simp [tstep, RefreshFlow.step, hpg, hf, hcg]
+          rw [hfl, s3, s4, s5] at hid
+          rcases hid with h1 | h1 | h1 | h1
+          · exact Or.inl h1
+          · exact Or.inr (Or.inl h1)
+          · exact Or.inr (Or.inr (Or.inl (s6 id h1)))
+          · exact Or.inr (Or.inr (Or.inr h1))
+        · intro p hp; simpa [tstep, hpg, hf, hcg] using hp
+    · have hst : RefreshFlow.step t.flow (.fetchOk m) = t.flow := by
+        simp only [RefreshFlow.step]
+        split
+        · rfl
+        · rename_i hc; simp at hc hen; simp [hc] at hen
+      have hcond : (!t.flow.producerGone && t.flow.fetching && !t.flow.consumerGone) = false := by
+        simp at hen ⊢; intro a b; simp [hen a] at b
+      have : tstep t (.fetchOk m) = t := by simp only [tstep, hcond, hst]; rfl
+      rw [this]; exact h0
+  | fetchErrNoCc =>
+    by_cases hen : (!t.flow.producerGone && t.flow.fetching) = true
+    · simp only [Bool.and_eq_true, Bool.not_eq_true'] at hen
+      obtain ⟨hpg, hf⟩ := hen
+      apply timeInv_of t _ h0
+      · simpa [tstep, hpg, hf] using fi'
+      · simp [tstep, RefreshFlow.step, hpg, hf]
+      · simp [tstep, hpg, hf]
+      · simp [tstep, hpg, hf]
+      · intro r' hr'; simp [tstep, RefreshFlow.step, hpg, hf] at hr'
+      · intro p hp
+        simp only [tstep, hpg, hf, Bool.not_false, Bool.and_self, if_true, List.mem_append, List.mem_map,
+          Option.mem_toList] at hp
+        rcases hp with hp | ⟨r, hr, rfl⟩
+        · exact Or.inl hp
+        · exact Or.inr ⟨hr, rfl⟩
+      · intro id hid
+        simp only [tstep, RefreshFlow.step, hpg, hf, Bool.not_false, Bool.and_self, if_true, Bool.false_or,
+          Bool.not_true, Bool.false_eq_true, if_false, List.mem_append, Option.mem_toList] at hid ⊢
+        rcases hid with h1 | h1 | h1 | (h1 | h1)
+        · exact Or.inl (Or.inl h1)
+        · exact Or.inl (Or.inr (Or.inl h1))
+        · exact Or.inl (Or.inr (Or.inr (Or.inl h1)))
+        · exact Or.inl (Or.inr (Or.inr (Or.inr h1)))
+        · exact Or.inr ⟨t.fetchStart, Or.inr (List.mem_map.mpr ⟨id, by simpa using h1, rfl⟩)⟩
+      · intro p hp; simp [tstep, hpg, hf]; exact Or.inl hp
+    · have hst : RefreshFlow.step t.flow .fetchErrNoCc = t.flow := by
+        simp only [RefreshFlow.step]
+        split
+        · rfl
+        · rename_i hc; simp at hc hen; simp [hc] at hen
+      have : tstep t .fetchErrNoCc = t := by simp only [tstep, hen, hst]; rfl
+      rw [this]; exact h0
+  | fetchErrOnCc => exact h0
+  | merge op =>
+    obtain ⟨s1, s2, s3, s4, s5, s6⟩ := stopProducer_fields t.flow
+    apply timeInv_of t _ h0
+    · simpa [tstep] using fi'
+    · simp only [tstep, RefreshFlow.step]; split <;> (try split) <;> simp [s1]
+    · simp [tstep]
+    · simp [tstep]
+    · intro r' hr'; left
+      simp only [tstep, RefreshFlow.step] at hr' ⊢
+      split at hr' <;> (try split at hr') <;> simp_all
+    · intro p hp; left; simpa [tstep] using hp
+    · intro id hid; left
+      simp only [tstep, RefreshFlow.step] at hid
+      split at hid
+      · exact hid
+      · split at hid
+        · simp only [s3, s4, s5] at hid
+          rcases hid with h1 | h1 | h1 | h1
+          · exact Or.inl h1
+          · exact Or.inr (Or.inl h1)
+          · exact Or.inr (Or.inr (Or.inl (s6 id h1)))
+          · exact Or.inr (Or.inr (Or.inr h1))
+        · simpa [refreshIds_apply_strip] using hid
+    · intro p hp; simpa [tstep] using hp
+  | consumerTake =>
+    apply timeInv_of t _ h0
+    · simpa [tstep] using fi'
+    · simp only [tstep, RefreshFlow.step]; split <;> (try split) <;> simp
+    · simp [tstep]
+    · simp [tstep]
+    · intro r' hr'; left
+      simp only [tstep, RefreshFlow.step] at hr' ⊢
+      split at hr' <;> (try split at hr') <;> simp_all
+    · intro p hp; left; simpa [tstep] using hp
+    · intro id hid; left
+      simp only [tstep, RefreshFlow.step] at hid
+      split at hid
+      · exact hid
+      · split at hid
+        · exact hid
+        · rename_i u hu
+          simp only [refreshIds_none, List.not_mem_nil, false_or] at hid
+          rcases hid with h1 | h1 | h1
+          · exact Or.inl h1
+          · exact Or.inr (Or.inr (Or.inl (by rw [hu]; exact h1)))
+          · exact Or.inr (Or.inr (Or.inr h1))
+    · intro p hp; simpa [tstep] using hp
+  | consumerFinish =>
+    apply timeInv_of t _ h0
+    · simpa [tstep] using fi'
+    · simp only [tstep, RefreshFlow.step]; split <;> simp
+    · simp [tstep]
+    · simp [tstep]
+    · intro r' hr'; left
+      simp only [tstep, RefreshFlow.step] at hr' ⊢
+      split at hr' <;> simp_all
+    · intro p hp; left; simpa [tstep] using hp
+    · intro id hid; left
+      simp only [tstep, RefreshFlow.step] at hid
+      split at hid
+      · exact hid
+      · simp only [List.mem_append, List.not_mem_nil, false_or] at hid
+        rcases hid with (h1 | h1) | h1 | h1
+        · exact Or.inl h1
+        · exact Or.inr (Or.inl h1)
+        · exact Or.inr (Or.inr (Or.inl h1))
+        · exact Or.inr (Or.inr (Or.inr h1))
+    · intro p hp; simpa [tstep] using hp
+  | consumerGone =>
+    apply timeInv_of t _ h0
+    · simpa [tstep] using fi'
+    · simp only [tstep, RefreshFlow.step]; split <;> (try split) <;> simp
+    · simp [tstep]
+    · simp [tstep]
+    · intro r' hr'; left
+      simp only [tstep, RefreshFlow.step] at hr' ⊢
+      split at hr' <;> (try split at hr') <;> simp_all
+    · intro p hp; left; simpa [tstep] using hp
+    · intro id hid; left
+      simp only [tstep, RefreshFlow.step] at hid
+      split at hid
+      · exact hid
+      · split at hid <;> simp only [refreshIds_none, List.not_mem_nil, false_or] at hid
+        · rcases hid with h1 | h1
+          · exact Or.inl h1
+          · exact Or.inr (Or.inr (Or.inr h1))
+        · rcases hid with h1 | h1 | h1
+          · exact Or.inl h1
+          · exact Or.inr (Or.inr (Or.inl h1))
+          · exact Or.inr (Or.inr (Or.inr h1))
+    · intro p hp; simpa [tstep] using hp
+  | producerGone =>
+    obtain ⟨s1, s2, s3, s4, s5, s6⟩ := stopProducer_fields t.flow
+    apply timeInv_of t _ h0
+    · simpa [tstep] using fi'
+    · simp only [tstep, RefreshFlow.step]; split <;> simp [s1]
+    · simp [tstep]
+    · simp [tstep]
+    · intro r' hr'; left
+      simp only [tstep, RefreshFlow.step] at hr' ⊢
+      split at hr' <;> simp_all
+    · intro p hp; left; simpa [tstep] using hp
+    · intro id hid; left
+      simp only [tstep, RefreshFlow.step] at hid
+      split at hid
+      · exact hid
+      · simp only [s3, s4, s5] at hid
+        rcases hid with h1 | h1 | h1 | h1
+        · exact Or.inl h1
+        · exact Or.inr (Or.inl h1)
+        · exact Or.inr (Or.inr (Or.inl (s6 id h1)))
+        · exact Or.inr (Or.inr (Or.inr h1))
+    · intro p hp; simpa [tstep] using hp
+
+private theorem timeInv_run (evs : List Ev) : TimeInv (trun tinit evs) := by
+  have : ∀ (evs : List Ev) (t : Timed), TimeInv t → TimeInv (trun t evs) := by
+    intro evs
+    induction evs with
+    | nil => intro t h; exact h
+    | cons e rest ih => intro t h; exact ih _ (timeInv_step t e h)
+  exact this evs tinit timeInv_init
+
+/-- The ghost-timed run is the plain run with ghost fields added. -/
+theorem timed_run_projects (evs : List Ev) : (trun tinit evs).flow = RefreshFlow.run RefreshFlow.init evs := by
+  have : ∀ (evs : List Ev) (t : Timed), (trun t evs).flow = RefreshFlow.run t.flow evs := by
+    intro evs
+    induction evs with
+    | nil => intro t; rfl
+    | cons e rest ih =>
+      intro t
+      show (trun (tstep t e) rest).flow = RefreshFlow.run (RefreshFlow.step t.flow e) rest
+      rw [ih]
+      congr 1
+      cases e <;> simp only [tstep] <;> (try split) <;> rfl
+  exact this evs tinit
+
+/-- FRESHNESS. For every interleaving of requests, producer and consumer steps and shutdowns: every refresh request that
+has been answered - `Ok` (its reply channel was carried into the slot by `publish_metadata` and answered by the
+consumer) or `Err` (the failed establishment attempt's error) - was served by a full fetch / establishment attempt that
+STARTED strictly after the request was made; likewise for the requests whose reply channel is in the slot or held by the
+running `apply_metadata_update`. No request is ever answered by a fetch that was already in flight when it was made. -/
+theorem answering_fetch_started_after_request (evs : List Ev) (id : Nat) :
+    let t := trun tinit evs
+    (id ∈ t.flow.answeredOk ∨ id ∈ t.flow.applying ∨ id ∈ refreshIds t.flow.slot ∨ id ∈ t.flow.answeredErr) →
+      ∃ tIssued tFetch, (id, tIssued) ∈ t.issued ∧ (id, tFetch) ∈ t.served ∧ tIssued < tFetch := by
+  intro t hid
+  have inv : TimeInv t := timeInv_run evs
+  clear_value t
+  obtain ⟨tF, htF⟩ := inv.answeredServed id hid
+  obtain ⟨tI, htI⟩ := inv.all id (inv.servedIds _ htF)
+  exact ⟨tI, tF, htI, htF, inv.servedAfter _ htF tI htI⟩
+
+-- non-vacuity: request 0 starts fetch A (clock 1); request 1 is made while A is in flight (clock 2) and must NOT ride on A:
+-- it is served by fetch B started at clock 3.
+example :
+    let t := trun tinit [.request, .recvRequest, .request, .recvRequest, .fetchOk { peers := 1 }, .recvRequest,
+      .fetchOk { peers := 2 }, .consumerTake, .consumerFinish]
+    t.issued = [(0, 0), (1, 2)] ∧ t.served = [(0, 1), (1, 3)] ∧ t.flow.answeredOk = [0, 1] := by decide
+
 end Refresh
 
 /-! ### the consumer publishes what it received: slot → `apply_metadata_update` → published `ClusterState` -/
